@@ -76,10 +76,10 @@ static void *worker(void *arg)
 			static const uint64_t vals[] = { 1, 2, 3, 0x7f, 0x80, 0xff, 0x100, 0x7fff, 0x8000, 0xffff, 0x10001, 0x7fffffff, 0x80000000u, 0xffffffffu, 0x100000001ull, ~0ull };
 			uint64_t v = vals[(r >> 3) % 16] & maskw(l->w);
 			switch (l->mode) {
-			case 0:
+			case 0: case 6: case 7: case 8: case 9: case 10: case 11:	/* 6..11: one of the six update operations only */
 				DISPATCH(l, {
 					T *p = ADDR(T, l);
-					switch (r % 6) {
+					switch (l->mode ? (uint64_t)(l->mode - 6) : r % 6) {
 					case 0: uatomic_add(p, (T)v); me->delta[k] += v; break;
 					case 1: uatomic_sub(p, (T)v); me->delta[k] -= v; break;
 					case 2: uatomic_inc(p); me->delta[k] += 1; break;
@@ -184,7 +184,7 @@ static int do_run(int argc, char **argv)
 	for (int b = 0; b < 8; b++) if (!(used >> b & 1) && ((unsigned char *)&mem.word)[b] != 0xc3) { printf("VIOLATION byte %d of the word, which belongs to no operand, changed from 0xc3 to 0x%02x\n", b, ((unsigned char *)&mem.word)[b]); bad = 1; }
 	for (int k = 0; k < nloc; k++) {
 		struct loc *l = &locs[k]; uint64_t fin = load_loc(l), m = maskw(l->w);
-		if (l->mode == 0) {
+		if (l->mode == 0 || l->mode >= 6) {
 			uint64_t d = 0; for (int t = 0; t < nthreads; t++) d += ts[t].delta[k];
 			if (fin != ((l->init + d) & m)) { printf("VIOLATION location %d (type %d, byte %d): final value 0x%llx, initial 0x%llx plus the sum of all applied deltas gives 0x%llx: an update was lost or misapplied\n", k, l->type, l->off, (unsigned long long)fin, (unsigned long long)l->init, (unsigned long long)((l->init + d) & m)); bad = 1; }
 		} else if (l->mode == 1) {
@@ -241,7 +241,28 @@ static inline void rmw(long *z, int *w)
 	case 6: (void) uatomic_cmpxchg(w, uatomic_read(w), 5); break;
 	case 7: (void) uatomic_add_return(w, 3); break;
 	case 8: (void) uatomic_sub_return(w, 3); break;
+	/* 20..: primitives whose ordering the library's wake-up / grace-period protocols rely on (not read-modify-write value semantics) */
+	case 24: uatomic_or(z, 1L); cmm_smp_mb__after_uatomic_or(); break;
+	case 25: uatomic_and(z, ~1L); cmm_smp_mb__after_uatomic_and(); break;
+	case 26: uatomic_add(z, 1L); cmm_smp_mb__after_uatomic_add(); break;
+	case 27: uatomic_inc(z); cmm_smp_mb__after_uatomic_inc(); break;
+	case 28: uatomic_dec(z); cmm_smp_mb__after_uatomic_dec(); break;
+	case 29: cmm_smp_mb__before_uatomic_or(); uatomic_or(z, 1L); break;
+	case 30: (void) uatomic_xchg_mo(z, 1L, CMM_SEQ_CST); break;
+	case 31: (void) uatomic_cmpxchg_mo(z, uatomic_read(z), 5L, CMM_SEQ_CST, CMM_SEQ_CST); break;
+	case 32: (void) uatomic_add_return_mo(z, 3L, CMM_SEQ_CST); break;
+	case 20: case 21: case 22: case 23: break;	/* the store itself carries the ordering: see first_store() */
 	default: CMM_STORE_SHARED(*z, 1L); break;	/* control: no read-modify-write */
+	}
+}
+static inline void first_store(int *x)
+{
+	switch (lit_kind) {
+	case 20: uatomic_store(x, 1, CMM_SEQ_CST); break;				/* reader exit of urcu-mb / urcu-qsbr */
+	case 21: uatomic_store(x, 1, CMM_RELAXED); cmm_smp_mb(); break;
+	case 22: uatomic_set(x, 1); cmm_smp_mb(); break;
+	case 23: uatomic_store(x, 1, CMM_SEQ_CST_FENCE); break;
+	default: CMM_STORE_SHARED(*x, 1); break;
 	}
 }
 static long both_zero;
@@ -253,8 +274,8 @@ static void *lit_thread(void *arg)
 		if (id == 0) { X = 0; Y = 0; }
 		bar_wait(&sense);
 		for (int d = (int)(lcg(&rng) & 7); d > 0; d--) caa_cpu_relax();
-		if (id == 0) { CMM_STORE_SHARED(X, 1); rmw(&Z0, &W0); R0 = CMM_LOAD_SHARED(Y); }
-		else { CMM_STORE_SHARED(Y, 1); rmw(&Z1, &W1); R1 = CMM_LOAD_SHARED(X); }
+		if (id == 0) { first_store(&X); rmw(&Z0, &W0); R0 = uatomic_load(&Y, CMM_RELAXED); }
+		else { first_store(&Y); rmw(&Z1, &W1); R1 = uatomic_load(&X, CMM_RELAXED); }
 		bar_wait(&sense);
 		if (id == 0 && R0 == 0 && R1 == 0) both_zero++;
 	}
@@ -262,9 +283,10 @@ static void *lit_thread(void *arg)
 }
 static int do_litmus(int argc, char **argv)
 {
-	static const char *kinds[] = { "none", "xchg", "cmpxchg", "add_return", "sub_return", "xchg32", "cmpxchg32", "add_return32", "sub_return32", "add_return_zero", "sub_return_zero", "add_return32_zero", "cmpxchg_same", "xchg_same" };
+	static const char *kinds[] = { "none", "xchg", "cmpxchg", "add_return", "sub_return", "xchg32", "cmpxchg32", "add_return32", "sub_return32", "add_return_zero", "sub_return_zero", "add_return32_zero", "cmpxchg_same", "xchg_same",
+		"", "", "", "", "", "", "store_seqcst", "store_relaxed_mb", "set_mb", "store_seqcst_fence", "or_mb_after", "and_mb_after", "add_mb_after", "inc_mb_after", "dec_mb_after", "mb_before_or", "xchg_mo_seqcst", "cmpxchg_mo_seqcst", "add_return_mo_seqcst" };
 	if (argc < 4) return 2;
-	lit_kind = -1; for (int i = 0; i < 14; i++) if (!strcmp(argv[2], kinds[i])) lit_kind = i;
+	lit_kind = -1; for (int i = 0; i < (int)(sizeof kinds / sizeof *kinds); i++) if (kinds[i][0] && !strcmp(argv[2], kinds[i])) lit_kind = i;
 	if (lit_kind < 0) return 2;
 	lit_rounds = atol(argv[3]);
 	pthread_t a, b;
